@@ -13,6 +13,7 @@ prop("C01", "Assignment fidelity: the destination receives exactly the source va
     ("uint_to_uint", "assign_uint_uint", "unsigned values into unsigned fields"),
     ("absent_source_is_noop_or_zero", "assign_absent", "an absent source (nil, the null node, a null in the document) leaves the field alone or zeroes it: never a value from elsewhere"),
     ("vector_to_field_rule", "vector_to_field_rule", "RULE LEVEL, end to end: after a rule `obj.F = jso.path` (F a field of the destination struct of any type, path leading to a present value, no modifiers) the field holds exactly the cascade's conversion of that value -- characterised by the theorems below --, no other object and no variable changes, and the rule succeeds"),
+    ("example_text_to_field", "e_assign_rule", "not vacuous: the text `obj.Status = jso.n`, parsed by the parser model, run on a context with a document and a destination bound, meets the theorem's hypotheses and leaves Status = 42"),
     ("plain_rule_is_lookup_then_write", "follow_plain_assign", "a rule `dst = src` without modifiers is Ctx.get of the source followed by Ctx.set of the destination"),
     ("static_rule_is_set_of_literal", "follow_static_assign", "a rule `dst = literal` is Ctx.set of the literal's text, wherever the rule stands"),
     ("wrap_int_range", "wrap_int_range", "narrowing stays inside the field's range"),
@@ -98,6 +99,7 @@ prop("C14", "A reset or pooled context behaves like a new one", [
     ("reset_is_new_but_verdict_cell", "reset_is_new_but_bufBl", "Reset leaves exactly a new context (same objects), except the verdict cell bufBl"),
     ("reset_core_equals_new", "reset_core_eq_new", "i.e. it agrees with a new context on everything but the scratch cells"),
     ("reused_context_decodes_like_new", "reused_context_decodes_like_new", "FULL STATEMENT: a context with any past, once Reset and given the job's bindings, decodes any program to the same error, objects, variables and call sequence as a new context given the same bindings (any fuel, any user functions)"),
+    ("example_dirty_scratch", "e_scratch", "not vacuous: a context with a stale verdict and a stale scratch value agrees with the clean one on everything else and decodes a parsed program to the same result"),
     ("every_rule_ignores_scratch", "follow_respects", "the induction behind it: followRule, at every fuel, maps contexts that differ only in scratch cells to contexts that differ only in scratch cells, with the same error"),
     ("comparison_ignores_scratch", "ctx_cmp_core", "comparisons do not read the incoming scratch cells"),
     ("lookup_ignores_scratch", "ctx_get_core", "nor do lookups"),
@@ -114,6 +116,7 @@ prop("C14", "A reset or pooled context behaves like a new one", [
 prop("C15", "A failing rule stops the decode and the failure is reported", [
     ("user_error_is_last_call", "user_error_is_last_call", "FULL STATEMENT (calls): for every program and fuel, with user functions that report their own call number, a decode that returns a user function's error made no call after the failing one -- no callback, getter, modifier or helper of any later rule, iteration or case"),
     ("failure_is_never_swallowed", "failure_is_never_swallowed", "FULL STATEMENT (no swallow): every call is logged and the entry of a call that returned an error carries a mark; with user functions whose only errors are their own, a decode that returns anything but a user function's error -- nil, a signal, an internal error -- has no marked entry in its log: whenever a callback, getter, modifier or condition helper fails, however deeply buried, Decode returns a user function's error (by user_error_is_last_call that of the last call made, i.e. of the first that failed)"),
+    ("example_program_with_injected_failure", "e_program", "not vacuous: a parsed loop / condition / call program on a calm context with an empty log, the harness's user functions honest and strict; fault-free it makes two calls and succeeds, with call 1 failing Decode returns that error, made no further call and did not run the rule after the loop"),
     ("success_means_no_call_failed", "success_means_no_call_failed", "in particular a successful decode"),
     ("every_rule_reports_failures", "follow_sound2", "the induction behind it, through every driver"),
     ("harness_functions_are_strict", "testU_strict", "the hypothesis holds of the harness's user functions (whose Go twins write the same mark into the trace the correspondence compares)"),
